@@ -30,49 +30,39 @@ def outgoingDefault : Bool × Nat :=
 def sdForeign (h : Header) : Bool :=
   ((!decide (h.sid = SD_SERVICE)) || (!decide (h.mid = SD_METHOD)) || (!decide (h.iv = SD_INTERFACE_VERSION)) || (!decide (h.rc = RetCode.ok)) || (!decide (h.mt = MsgType.notification)))
 
--- UNTRANSLATED: call of self._find_rejection (the model's own definition stands in; only the correspondence check ties it)
 def svcPrecheck (c : SvcCfg) (m : Header) (multicast known : Bool) : Option (Option RetCode) :=
-  if multicast then none else if m.sid ≠ c.serviceId then some (some .unknownService) else if m.iv ≠ c.versionMajor then some (some .wrongInterfaceVersion) else if !known then some (some .unknownMethod) else if m.mt ≠ .request ∧ m.mt ≠ .requestNoReturn then some (some .wrongMessageType) else if m.rc ≠ .ok then some (some .wrongMessageType) else some none
+  (if multicast = true then none else (if (!decide (m.sid = c.serviceId)) = true then some (some RetCode.unknownService) else (if (!decide (m.iv = c.versionMajor)) = true then some (some RetCode.wrongInterfaceVersion) else (if (!known) = true then some (some RetCode.unknownMethod) else (if (!(decide (m.mt = MsgType.request) || decide (m.mt = MsgType.requestNoReturn))) = true then some (some RetCode.wrongMessageType) else (if (!decide (m.rc = RetCode.ok)) = true then some (some RetCode.wrongMessageType) else some none))))))
 
--- UNTRANSLATED: call of self._find_rejection (the model's own definition stands in; only the correspondence check ties it)
 def svcMalformedCode : RetCode :=
-  .malformedMessage
+  RetCode.malformedMessage
 
--- UNTRANSLATED: call of self._find_rejection (the model's own definition stands in; only the correspondence check ties it)
 def svcPositive (m : Header) (hasResponse : Bool) : Bool :=
-  hasResponse && decide (m.mt = .request)
+  (hasResponse && decide (m.mt = MsgType.request))
 
--- UNTRANSLATED: no leading guards (the model's own definition stands in; only the correspondence check ties it)
 def offerSuppressed (task remote : Option Nat) (canAnswer stop : Bool) : Bool :=
-  !stop && (task.isNone || (remote.isSome && !canAnswer))
+  (((!stop) && task.isNone) || ((!stop) && (!remote.isNone) && (!canAnswer)))
 
 def subscribeRefused (task : Option Nat) (m : Bool) : Bool :=
-  ((task.isNone || (!m)))
+  (task.isNone || (!m))
 
 def instMatchesFind (canAnswer m : Bool) : Bool :=
   (if (!canAnswer) = true then false else m)
 
--- UNTRANSLATED: shape of queue_send (the model's own definition stands in; only the correspondence check ties it)
 def queueImmediate (coll : Nat) : Bool :=
   decide (coll = 0)
 
--- UNTRANSLATED: shape of queue_send (the model's own definition stands in; only the correspondence check ties it)
 def queueNewWindow (qNone done : Bool) : Bool :=
-  qNone || done
+  (qNone || done)
 
--- UNTRANSLATED: a sleep inside a for loop that is not `for i in range(X)` (the model's own definition stands in; only the correspondence check ties it)
 def offerInitialWindow (lo hi : Nat) : Nat × Nat :=
   (lo, hi)
 
--- UNTRANSLATED: a sleep inside a for loop that is not `for i in range(X)` (the model's own definition stands in; only the correspondence check ties it)
 def offerRepCount (rmax : Nat) : Nat :=
   rmax
 
--- UNTRANSLATED: a sleep inside a for loop that is not `for i in range(X)` (the model's own definition stands in; only the correspondence check ties it)
 def offerRepDelay (i base : Nat) : Nat :=
-  2 ^ i * base
+  ((2 ^ i) * base)
 
--- UNTRANSLATED: a sleep inside a for loop that is not `for i in range(X)` (the model's own definition stands in; only the correspondence check ties it)
 def offerCyclicSleep (cyc : Nat) : Nat :=
   cyc
 
@@ -85,7 +75,6 @@ def findRepCount (rmax : Nat) : Nat :=
 def findRepDelay (i base : Nat) : Nat :=
   ((2 ^ i) * base)
 
--- UNTRANSLATED: name refresh_interval (the model's own definition stands in; only the correspondence check ties it)
 def subscribeSleep (refresh : Nat) : Nat :=
   refresh
 
@@ -95,11 +84,9 @@ def storeArms (ttl : Nat) : Bool :=
 def storeTtlDelay (ttl : Nat) : Nat :=
   ttl
 
--- UNTRANSLATED: no single SendCollector(timeout, ...) in queue_send (the model's own definition stands in; only the correspondence check ties it)
 def collectDelay (coll : Nat) : Nat :=
   coll
 
--- UNTRANSLATED: the drawn delay is not what call_later gets (the model's own definition stands in; only the correspondence check ties it)
 def answerWindow (lo hi : Nat) : Nat × Nat :=
   (lo, hi)
 
